@@ -354,6 +354,31 @@ def run(ctx: Ctx):
         ctx.count("altitude-scan-same-simulation-section")
     for c in cfgs:
         pointwise(ctx, c, nev)
+    # ---- a geometry object that was copied or pickled between throw() and mcintegral() (handed to a worker process, kept in a
+    # checkpoint): the estimate is the one of the original object
+    import copy
+    import pickle
+    for c in cfgs[:3] + [(525.0, 0.0, 0.0, float(np.radians(0.5)), float(np.radians(3.0)), 2 * np.pi)]:
+        g_ = make_geom(*c)
+        g_.throw(rng.random((4, 400)))
+        k_ = int(np.count_nonzero(g_.event_mask))
+        if k_ == 0:
+            continue
+        ones_ = np.ones(k_)
+        ref_ = g_.mcintegral(ones_, -1.0, ones_, 0.0, 1.0, 1.0)
+        for how, mk in (("pickle round trip", lambda o: pickle.loads(pickle.dumps(o))), ("copy.deepcopy", copy.deepcopy), ("copy.copy", copy.copy)):
+            ctx.case(("copied-geometry", c[0], how)); ctx.count("copied_geometry_objects")
+            try:
+                g2 = mk(g_)
+                got_ = g2.mcintegral(ones_, -1.0, ones_, 0.0, 1.0, 1.0)
+            except Exception as ex:  # noqa
+                ctx.notes.append(f"{how} of a RegionGeom raised {type(ex).__name__} (not required by the property)")
+                continue
+            if not (close(got_[1], ref_[1], 1e-12) and close(got_[0], ref_[0], 1e-12) and int(got_[2]) == int(ref_[2])):
+                ctx.violation("RegionGeom.mcintegral", "estimate-changes-after-copying-the-object",
+                              f"after a {how} of the geometry object the geometric estimate is {float(got_[1])!r} instead of {float(ref_[1])!r} (thrown 400, kept {k_})",
+                              {"cfg": list(c), "how": how, "thrown": 400, "kept": k_, "estimate_original": float(ref_[1]), "estimate_copy": float(got_[1])})
+                break
     # ---- one configuration object re-used for several geometries (its altitude set in turn, the geometries evaluated afterwards):
     # whichever altitude an object goes by — the one at construction or the one in force at the call — its normalisation
     # constant and its events must go by the SAME one
